@@ -148,12 +148,12 @@ btvrow = dict(DENSE, **{
          "region_end": r"\}\s*/// multiply with basis matrix; B \* vec \(inplace\)",
          "must_contain": [r"std::copy\(x\.vec\(\)\.begin\(\), x\.vec\(\)\.end\(\), sol\);\s*return true;\s*$"]}],
     "loops": [
-        {"function": r"H::body\(this\)", "loop": 0, "locals": [["i", "LOC_A"], "scaleExp", "idx"],
+        {"function": r"H::body\(this\)", "loop": 0, "locals": [["i", "1::1::i"], "scaleExp", "idx"],
          "invariants": ["0<=i && i<=g_nc && 0<=*gp_ds_used && *gp_ds_used<=i",
                         "(g_b<i && v_binfo<0) ? (g_addb==1 && 0<=g_add_pos && g_add_pos<*gp_ds_used && g_q==g_add_pos && gp_dsi[g_add_pos]==g_b && gp_dsv[g_add_pos]==v_rhs_r2+(g_scale ? v_rexpb : 0)) : (g_addb==0)"],
          "assigns": ["i", "scaleExp", "idx", "*gp_ds_used", "*gp_ds_gpos", "__CPROVER_object_whole(gp_dsv)", "__CPROVER_object_whole(gp_dsi)", "g_addb", "v_add", "g_add_pos", "g_q"],
          "decreases": "g_nc-i"},
-        {"function": r"H::body\(this\)", "loop": 1, "locals": [["j", "LOC_B"], "scaleExp"],
+        {"function": r"H::body\(this\)", "loop": 1, "locals": [["j", "1::4::i"], "scaleExp"],
          "invariants": ["0<=j && j<=g_n", "(g_p<j) ? gp_s2[g_p]==%s : 1" % EXP_BTV],
          "assigns": ["j", "scaleExp", "__CPROVER_object_whole(gp_s2)", "g_dot_hits", "g_sub_hits"], "decreases": "g_n-j"},
     ],
